@@ -178,6 +178,16 @@ def run(ctx):
             if pn[r] != t.target[node]:
                 ctx.violation(f"new point {Xn[r].tolist()} predicted {pn[r]} but lies in the region of leaf node {node} (cluster {t.target[node]})",
                               "predict", {**inp, "x": Xn[r].tolist()}, key="predict:new-point", how=how)
+            # the same point predicted ALONE (a one-row array: most internal nodes then receive no sample at all)
+            alone = model.predict(Xn[r:r + 1])[0]
+            if alone != t.target[node]:
+                ctx.violation(f"new point {Xn[r].tolist()} predicted alone gives {alone} but lies in the region of leaf node {node} "
+                              f"(cluster {t.target[node]})", "predict", {**inp, "x": Xn[r].tolist()}, key="predict:new-point:alone", how=how)
+        for i in rs.choice(len(X), size=min(3, len(X)), replace=False):
+            alone = model.predict(X[i:i + 1])[0]
+            if alone != model.labels_[i]:
+                ctx.violation(f"training sample {int(i)} predicted alone gives {alone}, its label is {model.labels_[i]}", "predict",
+                              {**inp, "i": int(i)}, key="predict:train-point:alone", how=how)
     hybrid(ctx, rs, 120 if ctx.tier == "quick" else 1000, cases, impls, lines)
     try:
         outs = core.run_driver("Kauri", lines)
